@@ -38,6 +38,115 @@ PROPS["C05"] = {
 }
 PROPS["C05"]["thorough"] = PROPS["C05"]["quick"]
 
+PROPS["C03"] = {
+    "quick": [
+        J("circuitbreaker", "ZZ_H03a_RingStep", solver="z3", native=True, params={"max_ring": 6}, note="inductive ring step, capacity 1..6, arbitrary bits/head/occupancy under Inv_c; real bitset package interpreted"),
+        J("circuitbreaker", "ZZ_H03c_TimedStep", solver=INT, native=True, params={"bucket_base": 1, "bucket_cfgs": 2}, note="inductive time-bucket step; bucketNanos in {7,100}; head on grid {0,10,10^6}+ring position; arbitrary counts<2^16; t symbolic <2^47"),
+        J("circuitbreaker", "ZZ_H03g_History", solver=INT, native=True, params={"ops": 2}, note="bounded history (2 ops) through the public API vs reference machine; 6 configurations; symbolic delay/instants (count-based), boundary grid (time-based)"),
+    ],
+    "thorough": [
+        J("circuitbreaker", "ZZ_H03a_RingStep", solver="z3", native=True, params={"max_ring": 12}, time_limit_s=1500, note="inductive ring step, capacity 1..12"),
+        J("circuitbreaker", "ZZ_H03c_TimedStep", solver=INT, native=True, time_limit_s=1500, note="inductive time-bucket step; bucketNanos in {1,7,100,10^8,6*10^9}"),
+        J("circuitbreaker", "ZZ_H03g_History", solver=INT, native=True, params={"ops": 3}, time_limit_s=1500, note="bounded history (3 ops) vs reference machine; 6 configurations"),
+    ],
+    "assumptions": ["clock non-decreasing", "thresholding period divisible by 10", "ring capacity <= 12 (one bitset word)", "bucket counts < 2^16", "record calls in half-open state are preceded by a permit (protocol use)"],
+}
+
+def Z(fn, **kw):
+    return J("zzverif", fn, **kw)
+
+
+def L2(fn, p=1, d=0, **kw):
+    kw.setdefault("time_limit_s", 600)
+    return Z(fn, preempt=p, delays=d, race=True, **kw)
+
+
+_cmp_q = dict(params={"depth": 2, "execs": 2, "max_inv": 3, "max_retries": 1, "handles": 2}, native=True, time_limit_s=900,
+              note="every ordered composition (with repetition) of depth<=2 of {retry,breaker,fallback,cache,bulkhead,limiter,timeout}; 2 successive executions; <=3 invocations per execution; maxRetries<=1; results symbolic")
+_cmp_t = dict(params={"depth": 3, "execs": 2, "max_inv": 3, "max_retries": 1, "handles": 2}, native=True, time_limit_s=3000,
+              note="every ordered composition of depth<=3; 2 executions; <=3 invocations; maxRetries<=1")
+_ret_q = dict(params={"execs": 2, "max_inv": 4, "max_retries": 2, "unlimited": 1}, native=True, note="retry alone: maxRetries in {-1,0,1,2}, all handle/abort/ReturnLastFailure configs, scripts<=4 per execution, 2 successive executions")
+_ret_t = dict(params={"execs": 2, "max_inv": 6, "max_retries": 4, "unlimited": 1}, native=True, time_limit_s=3000, note="retry alone: maxRetries in {-1..4}, scripts<=6, 2 successive executions")
+_retn = dict(params={"execs": 1, "max_inv": 4, "max_retries": 2}, native=True, note="retry directly under/over each other policy kind; scripts<=4")
+_fb_q = dict(params={"execs": 2, "max_inv": 3, "max_retries": 1}, native=True, note="fallback kinds x handle conditions x inner {none, each policy kind}; 2 executions")
+_ca_q = dict(params={"execs": 3, "max_inv": 2, "max_retries": 1, "handles": 2}, native=True, note="cache x {none,retry,breaker,bulkhead,cache} inner; configured/context/non-string keys; symbolic prefilled content; 3 executions")
+
+PROPS["C01"] = {"quick": [Z("ZZ_C01_Compose", labels=["nesting:"], **_cmp_q)], "thorough": [Z("ZZ_C01_Compose", labels=["nesting:"], **_cmp_t)],
+                "assumptions": ["hedge policy and firing timeouts/blocking waits are covered per policy (C06-C09), not inside the sequential composition", "unlimited retries only where every attempt reaches the function"]}
+PROPS["C02"] = {"quick": [Z("ZZ_C02_Retry", labels=["nesting:", "stats:"], **_ret_q), Z("ZZ_C02_RetryNested", labels=["nesting:"], **_retn)],
+                "thorough": [Z("ZZ_C02_Retry", labels=["nesting:", "stats:"], **_ret_t), Z("ZZ_C02_RetryNested", labels=["nesting:"], **_retn)],
+                "assumptions": ["abort-matching outcome on the exhausting attempt: the implementation's choice (ExceededError unless ReturnLastFailure) is accepted, the statement does not decide it"]}
+PROPS["C10"] = {"quick": [Z("ZZ_C10_Fallback", labels=["fallback:", "nesting:"], **_fb_q)], "thorough": [Z("ZZ_C10_Fallback", labels=["fallback:", "nesting:"], **_fb_q)]}
+PROPS["C11"] = {"quick": [Z("ZZ_C11_Cache", labels=["cache:", "nesting:"], **_ca_q)], "thorough": [Z("ZZ_C11_Cache", labels=["cache:", "nesting:"], **_ca_q)]}
+PROPS["C12"] = {
+    "quick": [J("policy", "ZZ_H12a_IsFailure", native=True, params={"max_regs": 3}, note="every order/subset of <=3 handle registrations x 11 error shapes x symbolic results"),
+              J("policy", "ZZ_H12b_IsAbortable", native=True, params={"max_regs": 3}, note="every order/subset of <=3 abort registrations x 11 error shapes")],
+    "thorough": [J("policy", "ZZ_H12a_IsFailure", native=True, params={"max_regs": 4}, time_limit_s=1500, note="<=4 registrations"),
+                 J("policy", "ZZ_H12b_IsAbortable", native=True, params={"max_regs": 4}, time_limit_s=1500, note="<=4 registrations")],
+    "assumptions": ["error shapes from the stated catalogue (nil, sentinel, wrapped 1-2 levels, joined, typed by value and by pointer receiver)", "AbortOnResult on an outcome that also carries an error: either answer accepted (not specified)"],
+}
+_cmp_q1 = dict(params={"depth": 2, "execs": 1, "max_inv": 3, "max_retries": 1, "handles": 3}, native=True, time_limit_s=900,
+               note="every ordered composition (with repetition) of depth<=2; 1 execution; <=3 invocations; maxRetries<=1; 3 handle-condition kinds")
+PROPS["C16"] = {"quick": [Z("ZZ_C01_Compose", labels=["events:"], **_cmp_q1)], "thorough": [Z("ZZ_C01_Compose", labels=["events:"], **_cmp_t)],
+                "assumptions": ["sequential executions; hedge/timeout/bulkhead-wait events under concurrency are asserted in the Layer-2 scenarios"]}
+PROPS["C17"] = {"quick": [Z("ZZ_C01_Compose", labels=["stats:"], **_cmp_q1), L2("ZZ_S09a_Hedge", 1, params={"max_hedges": 1}, labels=["stats:"], note="overlapping hedge attempts: Attempts/Hedges/IsHedge inside each attempt; P=1")], "thorough": [Z("ZZ_C01_Compose", labels=["stats:"], **_cmp_t)],
+                "assumptions": ["start/elapsed time monotonicity follows from the virtual clock being non-decreasing; overlapping hedges are asserted in the hedge scenario (C09)"]}
+
+_L2NOTE = "interpreted goroutines, virtual time (symbolic durations/instants, every feasible time order incl. ties), all schedules within the preemption bound, HB race detector on"
+
+PROPS["C07"] = {
+    "quick": [L2("ZZ_S07a_Timeout", 2, note="Timeout(T)(fn): T,d symbolic<2^40, sleeping and block-until-cancelled fn; P=2; " + _L2NOTE),
+              L2("ZZ_S07b_RetryTimeout", 1, note="Retry(max 1)(Timeout(T)(fn)): T,d1,d2 symbolic; P=1"),
+              L2("ZZ_S07c_TimeoutFallback", 1, note="Timeout(Fallback(fn)) and Fallback(Timeout(fn)), symbolic fn and fallback durations; P=1")],
+    "thorough": [L2("ZZ_S07a_Timeout", 3, 1, note="P=3, 1 delay injection"), L2("ZZ_S07b_RetryTimeout", 2, 1, time_limit_s=2000, note="P=2, 1 delay injection"),
+                 L2("ZZ_S07c_TimeoutFallback", 2, 1, time_limit_s=2000, note="P=2, 1 delay injection")],
+    "labels": ["timeout:", "retry:", "fallback:", "cancel:"],
+}
+PROPS["C06"] = {
+    "quick": [L2("ZZ_S06a_Bulkhead", 0, params={"max_m": 1}, labels=["bulkhead:"], note="m=1, 2 async executions + optional standalone holder + optional context cancel at symbolic instant; maxWait 0 or symbolic; P=0 (all time orders)"),
+              L2("ZZ_S06a_Bulkhead", 1, params={"max_m": 1}, labels=["bulkhead:"], time_limit_s=900, note="same, P=1")],
+    "thorough": [L2("ZZ_S06a_Bulkhead", 1, params={"max_m": 2}, labels=["bulkhead:"], time_limit_s=3000, note="m<=2, 3 executions, P=1")],
+}
+PROPS["C09"] = {
+    "quick": [L2("ZZ_S09a_Hedge", 1, params={"max_hedges": 1}, labels=["hedge:", "stats:", "events:"], note="maxHedges=1, D,d0,d1 symbolic<2^30, cancel-on-any / cancel-on-first-only; P=1"),
+              L2("ZZ_S09a_Hedge", 0, params={"max_hedges": 2}, labels=["hedge:", "stats:", "events:"], note="maxHedges<=2, P=0 (all time orders)")],
+    "thorough": [L2("ZZ_S09a_Hedge", 2, 1, params={"max_hedges": 2}, labels=["hedge:", "stats:", "events:"], time_limit_s=3000, note="maxHedges<=2, P=2, 1 delay injection")],
+    "assumptions": ["when the hedge timer and an accepted result become ready at the same instant the coordinator's select may take either; an attempt launched in that tie is accepted (it must find itself cancelled)"],
+}
+PROPS["C08"] = {
+    "quick": [L2("ZZ_S08a_CancelRetry", 1, labels=["cancel:", "retry:"], note="Retry(max 2, delay symbolic)(optional failing Fallback)(fn) with one source: ctx cancel / ctx deadline / ExecutionResult.Cancel / enclosing Timeout at a symbolic instant; P=1"),
+              L2("ZZ_S08a_CancelRetry", 2, params={"src": 2}, labels=["cancel:", "retry:"], note="ExecutionResult.Cancel racing the retry loop; P=2"),
+              L2("ZZ_S08b_CancelWaits", 1, labels=["cancel:"], note="context cancelled while a rate-limiter / bulkhead wait is in progress inside a retry; P=1")],
+    "thorough": [L2("ZZ_S08a_CancelRetry", 3, 1, labels=["cancel:", "retry:"], time_limit_s=3000, note="all sources, P=3, 1 delay injection"),
+                 L2("ZZ_S08b_CancelWaits", 3, 1, labels=["cancel:"], note="P=3")],
+    "assumptions": ["cooperating functions take no virtual time, so 'promptly' is: the execution ends at the cancellation instant"],
+}
+PROPS["C04"] = {
+    "quick": [L2("ZZ_S04a_BreakerOpen", 0, params={"execs": 2}, labels=["breaker:"], time_limit_s=900, note="threshold 1, delay symbolic, 2 executions with symbolic offsets/durations/outcomes; P=0 (all time orders)"),
+              L2("ZZ_S04b_HalfOpen", 1, params={"max_cap": 1}, labels=["breaker:"], note="half-open capacity 1, 2 executions (one optionally under retry / firing timeout); P=1")],
+    "thorough": [L2("ZZ_S04a_BreakerOpen", 1, params={"execs": 3}, labels=["breaker:"], time_limit_s=3000, note="3 executions, P=1"),
+                 L2("ZZ_S04b_HalfOpen", 1, params={"max_cap": 2}, labels=["breaker:"], time_limit_s=3000, note="capacity<=2, 3 executions, P=1")],
+}
+PROPS["C15"] = {
+    "quick": [L2("ZZ_S15a_Async", 1, params={"readers": 2}, labels=["async:", "events:"], note="4 async entry points x {none, retry, fallback∘retry} x outcome scripts; 2 concurrent readers; sync≡async; P=1"),
+              L2("ZZ_S08a_CancelRetry", 2, params={"src": 2}, labels=["cancel: ExecutionResult.Cancel"], note="Cancel before completion under retry ⇒ ErrExecutionCanceled; P=2")],
+    "thorough": [L2("ZZ_S15a_Async", 2, params={"readers": 2}, labels=["async:", "events:"], time_limit_s=3000, note="P=2")],
+    "assumptions": ["IsDone is set one step before Done is closed; 'exactly from then on' is read up to that linearisation window"],
+}
+_c14 = [L2("ZZ_S14a_SharedPolicies", 1, params={"execs": 2}, labels=["concurrency:"], note="2 executions (sync/async) through Retry(Breaker(RateLimiter(Bulkhead))) + standalone API calls on the shared instances; P=1"),
+        L2("ZZ_S14b_HedgeInner", 1, labels=["concurrency:"], note="Hedge(Retry(fn)) and Timeout(Hedge(fn)); P=1"),
+        L2("ZZ_S07a_Timeout", 2, labels=["concurrency:"], note="race/deadlock/panic verdicts of the timeout scenario"),
+        L2("ZZ_S09a_Hedge", 1, params={"max_hedges": 1}, labels=["concurrency:"], note="race/deadlock/panic verdicts of the hedge scenario"),
+        L2("ZZ_S15a_Async", 1, params={"readers": 2}, labels=["concurrency:"], note="race/deadlock/panic verdicts of the async scenario"),
+        L2("ZZ_S06a_Bulkhead", 0, params={"max_m": 1}, labels=["concurrency:"], note="race/deadlock/panic verdicts of the bulkhead scenario")]
+PROPS["C14"] = {"quick": _c14, "thorough": _c14,
+                "assumptions": ["bounded exploration, not a proof of race freedom; verdicts are happens-before based, so one explored schedule exposes a race that needs a rare schedule to manifest"]}
+_c19 = [L2("ZZ_S07a_Timeout", 1, labels=["leak:"], note="quiescence after Timeout executions"), L2("ZZ_S07b_RetryTimeout", 1, labels=["leak:"], note="after Retry(Timeout)"),
+        L2("ZZ_S09a_Hedge", 1, params={"max_hedges": 1}, labels=["leak:"], note="after hedged executions"), L2("ZZ_S08a_CancelRetry", 1, labels=["leak:"], note="after cancelled executions"),
+        L2("ZZ_S08b_CancelWaits", 1, labels=["leak:"], note="after cancelled waits"), L2("ZZ_S15a_Async", 1, params={"readers": 1}, labels=["leak:"], note="async runner"),
+        L2("ZZ_S06a_Bulkhead", 0, params={"max_m": 1}, labels=["leak:"], note="after bulkhead executions")]
+PROPS["C19"] = {"quick": _c19, "thorough": _c19}
+
 DEFAULT_LEVEL_TEXT = ("Bounded symbolic model checking of the real code: the property's harness is executed symbolically from /repo's current "
                       "go/ssa; every feasible path within the stated bounds is explored and each assertion is discharged by an SMT solver for all "
                       "inputs/instants/schedules on that path. Holds 'for every value within the bound', says nothing outside it.")
